@@ -205,7 +205,7 @@ structure MSt where
   st : St
   stackId : Nat
   objs : Objs
-deriving Repr
+deriving Repr, DecidableEq
 
 namespace MSt
 
